@@ -19,6 +19,7 @@ for top in ("lbry", "scripts"):
                 parts = parts[:-1]
             raw = open(p, "rb").read()
             tree = ast.parse(raw)
+            alpha.strip_logging(tree)
             d = alpha.describe(tree)
             if d:
                 import hashlib
